@@ -311,6 +311,8 @@ let e2e13_record (tok : string) : string =
     (* "it always returns": the call did not come back within the runner's 40 s although every frame
        had been answered and no scheduling stall was measured *)
     if r.res = "timeout" && timeout_accepted r then "ok"
+    else if r.res = "timeout" && r.tmo <> None && not (prop_timeout_frames r.tr r.mg r.frs)
+    then "viol e2e frame-after-the-timeout " ^ rec_summary r        (* C06_e2e_timeout_frames *)
     else if r.res = "hang" && List.for_all (fun f -> f.f_ans <> AnsNone) r.frs && int_of_n r.mg < 1_000_000
     then "viol e2e no-return " ^ rec_summary r
     else (match direct_viol None with
